@@ -46,7 +46,7 @@ def warm():
     RULES = []
     for r in vsg.rule_list.load_rules():
         try:
-            RULES.append((r.unique_id, int(r.phase), int(r.subphase), bool(r.disable), bool(r.fixable), getattr(getattr(r, "severity", None), "name", None)))
+            RULES.append((r.unique_id, int(r.phase), int(r.subphase), bool(r.disable), bool(r.fixable), getattr(getattr(r, "severity", None), "name", None), tuple(str(x) for x in getattr(r, "configuration", []) or [])))
         except Exception:
             pass
     RULES.sort()
